@@ -102,6 +102,14 @@ func (p *Parser) parseTransaction() *ast.Transaction {
 		p.advance()
 	}
 
+	// The description is free text: its first word may have been lexed as a
+	// commodity, number, account or sign ("ATM withdrawal", "7eleven", "note: x").
+	switch p.current.Type {
+	case TokenText, TokenNewline, TokenEOF, TokenComment, TokenPipe:
+	default:
+		p.current = p.lexer.RescanText(p.current)
+	}
+
 	if p.current.Type == TokenText {
 		desc := p.current.Value
 		p.advance()
